@@ -225,6 +225,11 @@ func (e *bincEncDriver[T]) EncodeSymbol(v string) {
 			e.w.writen1(bincVdSymbol<<4 | 0x8)
 			e.w.writen2(bigen.PutUint16(ui))
 		}
+	} else if e.e.seq == math.MaxUint16 {
+		// every symbol id is taken: write a plain string, so that an id is never
+		// given to a second string (a later reference would decode as the wrong one).
+		e.encBytesLen(cUTF8, uint64(l))
+		e.w.writestr(v)
 	} else {
 		e.e.seq++
 		ui = e.e.seq
